@@ -228,7 +228,7 @@ Proof.
   intros q f d Hin. cbv zeta. unfold remove_deletable_files.
   destruct (rdf_files q _ f []) as [f1 flog] eqn:H1.
   destruct (prune_dirs (qdirs q) f1) as [f2 dlog] eqn:H2. cbn [r_fs].
-  unfold prune_dirs in H2.
+  rewrite prune_dirs_eq in H2.
   assert (In d (sort_desc (dedup (qdirs q)))) as Hd by (apply in_sort_desc, in_dedup; exact Hin).
   destruct (in_split_last d _ Hd) as [pre [post [Hsplit Hnot]]].
   pose proof (sort_desc_sorted (dedup (qdirs q))) as Hsorted.
@@ -336,7 +336,7 @@ Lemma rdf_dirs_unowned q f : qdirs_unowned q -> forall d, In d (r_dirs (remove_d
 Proof.
   intros Hq d Hd. unfold remove_deletable_files in Hd.
   destruct (rdf_files q _ f []) as [f1 flog]. destruct (prune_dirs (qdirs q) f1) as [f2 dlog] eqn:H2.
-  cbn [r_dirs] in Hd. apply in_rev in Hd. unfold prune_dirs in H2.
+  cbn [r_dirs] in Hd. apply in_rev in Hd. rewrite prune_dirs_eq in H2.
   pose proof (prune_loop_log_unowned (prune_fuel (sort_desc (dedup (qdirs q))) f1) (sort_desc (dedup (qdirs q))) f1 []) as Hp.
   rewrite H2 in Hp. cbn [snd] in Hp. apply Hp; [| intros x [] | exact Hd].
   intros x Hx. apply Hq. apply dedup_in, sort_desc_in. exact Hx.
